@@ -63,6 +63,35 @@ def load_file(data, root, **kw):
     return rows, fields, name
 
 
+def limit_inference_case(item):
+    """limit_rows says how many rows are DELIVERED, not what the schema is inferred from: a column whose first cells look like integers
+    and whose n-th cell is text is a string column (the text lies inside the inference sample of the file), whatever the limit - and the
+    first n rows come out as the texts they are (results() casts them with that schema)"""
+    import dataflows as DF
+    setup_repo()
+    k, n = item['k'], item['n']           # k integer-looking lines, then a text line, then one more number; limit n
+    cells = [str(10 * (i + 1)) for i in range(k)] + ['x%d' % (10 * (k + 1)), str(10 * (k + 2))]
+    data = ('v,w\r\n' + ''.join('%s,%d\r\n' % (c_, i) for i, c_ in enumerate(cells))).encode()
+    root = tempfile.mkdtemp(prefix='c13l-', dir=tlc.WORK_ROOT)
+    try:
+        p_ = os.path.join(root, 'in.csv')
+        open(p_, 'wb').write(data)
+        try:
+            with contextlib.redirect_stdout(io.StringIO()), contextlib.redirect_stderr(io.StringIO()):
+                res, dp, _ = DF.Flow(DF.load(p_, limit_rows=n)).results()
+        except Exception as e:
+            return dict(ok=False, why='load(limit_rows=%d) of a well-formed file raised' % n, raised='%s: %s' % (type(e).__name__, str(getattr(e, 'cause', e))[:120]))
+        types = [f['type'] for f in dp.descriptor['resources'][0]['schema']['fields']]
+        if types != ['string', 'integer']:
+            return dict(ok=False, why='the inferred types depend on limit_rows', got=types)
+        want = [dict(v=c_, w=i) for i, c_ in enumerate(cells)][:n]
+        if [dict(r_) for r_ in res[0]] != want:
+            return dict(ok=False, why='load(limit_rows=%d) does not yield exactly the first %d rows' % (n, n), got=[dict(r_) for r_ in res[0]][:5])
+        return dict(ok=True)
+    finally:
+        shutil.rmtree(root, ignore_errors=True)
+
+
 def sniffed_decode(data, strip, limit):
     """what the third-party table reader that load() drives (tabulator's Stream with its CSV parser) makes of the file
     when it is left to guess the dialect - csv.Sniffer over ',', tab, ';', '|' on the first lines, then header detection
@@ -404,6 +433,14 @@ def run():
         rep.mark_distinct(dict(p=c['tbl'], pol=c['policy']))
         if not out['ok']:
             rep.violation(c, dict(table=c['tbl'], policy=c['policy'], **{k: v for k, v in out.items() if k != 'ok'}), category='policy/%s/%s' % (c['policy'], out['why'][:40]))
+    litems = [dict(limit_inference=True, k=k, n=n) for k in (1, 2, 5, 99, 100, 101) for n in sorted({1, k, k + 1, k + 2, k + 3})]
+    for it, out in zip(litems, pmap(limit_inference_case, litems, chunksize=4)):
+        if '__harness_error__' in out:
+            raise tlc.MachineryError('harness error in limit / inference cases: ' + out['__harness_error__'])
+        rep.count(1, traces=1)
+        rep.mark_distinct(it)
+        if not out['ok']:
+            rep.violation(it, dict(case=it, **{k_: v for k_, v in out.items() if k_ != 'ok'}), category='limit-vs-inference/%s' % out['why'][:40])
     ritems = [dict(seed=r.randrange(10 ** 9)) for _ in range(300 if t == 'quick' else 6000)]
     recs = pmap(random_file, ritems, chunksize=16)
     errs = harness_errors(recs)
@@ -470,7 +507,9 @@ def replay(path):
             print('VIOLATION property=%s replay=%s' % (PROP, path))
         return 0 if out['ok'] else 1
     c = rec['case']
-    if 'variant' in c:
+    if c.get('limit_inference'):
+        out = limit_inference_case(c)
+    elif 'variant' in c:
         out = replay_case(c)
     elif 'policy' in c:
         out = replay_policy(c)
